@@ -525,12 +525,16 @@ func doReplay(path, prop string) int {
 		prop = rp.Property
 	}
 	d := *rp.Replay.Case
-	o := runOne(d.Tok, d.Gen.Line, d.Mode)
-	fs := judge(prop, d, o)
-	if len(fs) == 0 && len(rp.Replay.Before) > 0 {
-		// not a property of the line alone: feed the lines that were processed before it, then the line again
-		// state shared between lines may live in per-processor caches (sync.Pool) and be dropped by the GC:
-		// a few attempts, the later ones on a single processor
+	var o observation
+	var fs []failure
+	if len(rp.Replay.Before) == 0 {
+		o = runOne(d.Tok, d.Gen.Line, d.Mode)
+		fs = judge(prop, d, o)
+	} else {
+		// the failure may depend on the lines processed before it in the same process (state kept across lines:
+		// pools, caches, counters): feed them first, in order, then the line — never the line first, which could
+		// itself prime such state.  State may live in per-processor caches (sync.Pool) and be dropped by the GC:
+		// a few attempts, the later ones on a single processor.
 		for try := 0; try < 8 && len(fs) == 0; try++ {
 			if try == 3 {
 				runtime.GOMAXPROCS(1)
@@ -542,7 +546,7 @@ func doReplay(path, prop string) int {
 			fs = judge(prop, d, o)
 		}
 		if len(fs) > 0 {
-			fmt.Printf("(reproduced only after the %d lines processed before it)\n", len(rp.Replay.Before))
+			fmt.Printf("(replayed after the %d lines processed before it)\n", len(rp.Replay.Before))
 		}
 	}
 	for _, f := range fs {
